@@ -64,6 +64,24 @@ class StripCommentsFilter:
                 # a valid SQL (see #425).
                 if prev_ is not None and not prev_.match(T.Punctuation, '('):
                     tlist.tokens.insert(tidx, _get_insert_token(token))
+                elif (prev_ is None and tlist.parent is not None
+                        and not isinstance(tlist, sql.Comment)):
+                    # First token of a nested group: the token before the
+                    # group is not visible from here. Keep the separator in
+                    # front of the outermost group starting with the comment.
+                    grp = tlist
+                    while (grp.parent is not None
+                           and grp.parent.tokens[0] is grp):
+                        grp = grp.parent
+                    if grp.parent is not None:
+                        gidx = grp.parent.token_index(grp)
+                        before = grp.parent.tokens[gidx - 1]
+                        if not (before.is_whitespace
+                                or before.match(T.Punctuation, '(')):
+                            grp.parent.insert_before(
+                                gidx, _get_insert_token(token))
+                            if next_ is not None and next_.is_whitespace:
+                                tlist.tokens.remove(next_)
                 tlist.tokens.remove(token)
             else:
                 tlist.tokens[tidx] = _get_insert_token(token)
